@@ -19,7 +19,7 @@ func runC12(run *common.Run) {
 	run.Rule = "case = one program on one engine: 15-40 requests over the colliding key universe, two thirds CheckAndMutateRow (predicate = none or a generated filter tree to depth 3 incl. strip-everything, zero limits and erroring ones; true/false lists = generated mutation lists incl. empty lists and lists with an invalid k-th element), the rest plain MutateRow to move the row state. Before each request the row is read unfiltered and with filter=predicate; predicate_matched is compared with the independent evaluator AND with that filtered read, the row afterwards with the model applying exactly the selected list, and the whole table is re-read. Non-trivial = program saw both branches taken, a rejected request and a predicate that matched the row but left no cell; distinct by program x engine."
 	run.Assumptions = []string{"filter evaluator and data model as in C05/C01", "row-sample predicates admit either outcome", "an invalid predicate argument that the semantics never apply to a cell may or may not be rejected"}
 	j := common.NewJournal("C12")
-	nprog := run.N(150, 5000)
+	nprog := run.N(600, 8000)
 	common.Parallel(nprog*3, workers(), func(i int) {
 		prog, engine := i/3, drive.Engines[i%3]
 		if !run.Want("prog", i) || run.TooMany() {
